@@ -251,6 +251,20 @@ fn run<C: CI>(ctx: &mut Ctx) {
                     s.push(c as char);
                 }
             }
+            // every other time an ordinary (ASCII) offending byte too, before or after the multi-byte
+            // character: the report must still be the FIRST offending byte of the whole string
+            if r % 2 == 1 {
+                let asc: Vec<u8> = a.bad_bytes().into_iter().filter(|b| *b < 0x80 && *b >= 0x20).collect();
+                let b = *ctx.rng.pick(&asc) as char;
+                let mut v: Vec<char> = s.chars().collect();
+                let at = ctx.rng.below(v.len());
+                if (v[at] as u32) < 0x80 {
+                    v[at] = b;
+                } else {
+                    v.insert(if ctx.rng.chance(1, 2) { 0 } else { v.len() }, b);
+                }
+                s = v.into_iter().collect();
+            }
             judge::<C>(ctx, s.as_bytes(), "non-ascii");
             if r < 2 {
                 ctx.sample(|| json!({"codec": name, "input": s, "bytes": format!("{:02x?}", s.as_bytes())}));
